@@ -140,33 +140,33 @@ impl<'a> Cover<'a> {
             if !is_nan(self.o, min) {
                 for v in &vs {
                     if cmp(self.o, min, v, self.tz) == Some(Ordering::Greater) {
-                        return Err((format!("c07:{what}-bound-unsound:{label}"), format!("{what} min {min:02x?} > covered value {v:02x?} (values {:02x?})", vs)));
+                        return Err((format!("c07:bound-unsound:{label}"), format!("{what} min {min:02x?} > covered value {v:02x?} (values {:02x?})", vs)));
                     }
                 }
                 if min_exact == Some(true) && !vs.is_empty() && !vs.iter().any(|v| cmp(self.o, min, v, false) == Some(Ordering::Equal)) {
                     return Err((format!("c07:{what}-min-exact-not-attained:{label}"), format!("{what} min {min:02x?} flagged exact but not among values {:02x?}", vs)));
                 }
             } else if !vs.is_empty() {
-                return Err((format!("c07:{what}-bound-unsound:{label}"), format!("{what} min is NaN although non-NaN values {:02x?} are covered", vs)));
+                return Err((format!("c07:bound-unsound:{label}"), format!("{what} min is NaN although non-NaN values {:02x?} are covered", vs)));
             }
         }
         if let Some(max) = max {
             if !is_nan(self.o, max) {
                 for v in &vs {
                     if cmp(self.o, max, v, self.tz) == Some(Ordering::Less) {
-                        return Err((format!("c07:{what}-bound-unsound:{label}"), format!("{what} max {max:02x?} < covered value {v:02x?} (values {:02x?})", vs)));
+                        return Err((format!("c07:bound-unsound:{label}"), format!("{what} max {max:02x?} < covered value {v:02x?} (values {:02x?})", vs)));
                     }
                 }
                 if max_exact == Some(true) && !vs.is_empty() && !vs.iter().any(|v| cmp(self.o, max, v, false) == Some(Ordering::Equal)) {
                     return Err((format!("c07:{what}-max-exact-not-attained:{label}"), format!("{what} max {max:02x?} flagged exact but not among values {:02x?}", vs)));
                 }
             } else if !vs.is_empty() {
-                return Err((format!("c07:{what}-bound-unsound:{label}"), format!("{what} max is NaN although non-NaN values {:02x?} are covered", vs)));
+                return Err((format!("c07:bound-unsound:{label}"), format!("{what} max is NaN although non-NaN values {:02x?} are covered", vs)));
             }
         }
         if let (Some(min), Some(max)) = (min, max) {
             if cmp(self.o, min, max, self.tz) == Some(Ordering::Greater) {
-                return Err((format!("c07:{what}-bound-unsound:{label}"), format!("{what} min {min:02x?} > max {max:02x?}")));
+                return Err((format!("c07:bound-unsound:{label}"), format!("{what} min {min:02x?} > max {max:02x?}")));
             }
         }
         Ok(())
@@ -375,7 +375,7 @@ pub fn check_column(bytes: &Bytes, op: &Opened, col: usize, label: &str, expect:
                         BoundaryOrder::UNORDERED => false,
                     };
                     if bad {
-                        return Err((format!("c07:boundary-order-false:{label}"), format!("boundary_order {bo:?} but consecutive page bounds {a:02x?} then {b:02x?}")));
+                        return Err((format!("c07:boundary-order-false:{o:?}"), format!("boundary_order {bo:?} but consecutive page bounds {a:02x?} then {b:02x?}")));
                     }
                 }
             }
